@@ -90,7 +90,7 @@ def Geometric.cdf (d : Gen.Geometric α) (k : Nat) : α :=
   sumTo (fun j => d.p * powi ((1.0 : α) - d.p) (Int.ofNat j)) k
 
 /-- DiscreteUniform{a..b}: F(x) = (⌊x⌋ - a + 1)/(b - a + 1) on [a, b] -/
-def DiscreteUniform.cdf (d : Gen.DiscreteUniform α) (x : α) : α :=
+def DiscreteUniform.cdf03 (d : Gen.DiscreteUniform α) (x : α) : α :=
   if lt x (ofIntR d.a) then (0.0 : α) else if le (ofIntR d.b) x then (1.0 : α)
   else (floor x - ofIntR d.a + (1.0 : α)) / (ofIntR (d.b - d.a + 1))
 
@@ -104,7 +104,7 @@ def Binomial.cdf (d : Gen.Binomial α) (k : Nat) : α :=
 def Binomial.cdfInt (d : Gen.Binomial α) (k : Int) : α := if k < 0 then (0.0 : α) else Binomial.cdf d k.toNat
 
 /-- ln C(n, j) B(j + α, n - j + β) / B(α, β) -/
-def BetaBinomial.lnPmf (d : Gen.BetaBinomial α) (j : Nat) : α :=
+def BetaBinomial.lnPmf03 (d : Gen.BetaBinomial α) (j : Nat) : α :=
   let n : α := ofNatR d.n
   let jf : α := ofNatR j
   lgamma (n + (1.0 : α)) - lgamma (jf + (1.0 : α)) - lgamma (n - jf + (1.0 : α))
@@ -112,7 +112,7 @@ def BetaBinomial.lnPmf (d : Gen.BetaBinomial α) (j : Nat) : α :=
 
 /-- BetaBinomial(n, α, β): F(k) = Σ_{j ≤ min(k, n)} pmf j -/
 def BetaBinomial.cdf (d : Gen.BetaBinomial α) (k : Nat) : α :=
-  sumTo (fun j => exp (BetaBinomial.lnPmf d j)) (min k d.n)
+  sumTo (fun j => exp (BetaBinomial.lnPmf03 d j)) (min k d.n)
 def BetaBinomial.cdfInt (d : Gen.BetaBinomial α) (k : Int) : α :=
   if k < 0 then (0.0 : α) else BetaBinomial.cdf d k.toNat
 
